@@ -370,7 +370,8 @@ def simulate(ch: Choices, prog: Program, *, db_path: Optional[str] = None,
              session: Optional[ProgramSession] = None,
              setup: Optional[Callable[[World, Recorder, Any], None]] = None,
              context: Optional[dict] = None,
-             keep_backend: bool = False, scheduler: Any = None) -> RunResult:
+             keep_backend: bool = False, scheduler: Any = None,
+             ns: Optional[int] = None) -> RunResult:
     """
     One simulated execution of `prog` on a fresh (or given) backend file.
     """
@@ -379,7 +380,10 @@ def simulate(ch: Choices, prog: Program, *, db_path: Optional[str] = None,
     own_session = session is None
     if db_path is None:
         db_path = schedsim.fresh_db("run.db")
-    w = World(ch, step_cap=step_cap, policy=policy, ns=schedsim.next_generation(db_path))
+    # uuid namespace: by default distinct for every execution of a case; runs that are to be
+    # compared row by row (same schedule on separate fresh backends) pass the same ns.
+    w = World(ch, step_cap=step_cap, policy=policy,
+              ns=ns if ns is not None else schedsim.next_generation(db_path))
     rec = Recorder(w)
     sess = session or ProgramSession(prog)
     backend = None
